@@ -1072,8 +1072,16 @@ def build_item(cur, log):
             pat = [x for x in toks[a1 + 1:a2] if x.kind not in ("ws", "lc", "bc")]
             names = [x.text for x in pat if x.text != ","]
             kv = f"k__{n_}"
-            if any(x.kind == "ident" and x.text == "continue" for x in toks[lo_:lc_]):
-                raise ExtractError(f"unsupported-construct: {where}: `continue` inside a loop rewritten by R2")
+            # `continue` of THIS loop must not skip the index increment appended at the end of the body:
+            # `continue;` -> `{ k += 1; continue; }` (a `continue` inside a nested loop belongs to that loop and is left alone)
+            conts = []
+            for q_ in range(lo_ + 1, lc_):
+                if toks[q_].kind == "ident" and toks[q_].text == "continue":
+                    if any(lo2 < q_ < lc2 and (lk2, lo2, lc2) != (lk, lo_, lc_) and lo_ < lo2 for (lk2, lo2, lc2) in loops): continue
+                    nx_ = next_code(toks, q_)
+                    if nx_ is None or toks[nx_].text != ";":
+                        raise ExtractError(f"unsupported-construct: {where}: labelled or expression `continue` inside a loop rewritten by R2")
+                    conts.append((q_, nx_))
             if expr.endswith(".iter().enumerate()"):
                 base_e = expr[:-len(".iter().enumerate()")]
                 if len(names) == 2:
@@ -1088,6 +1096,8 @@ def build_item(cur, log):
             ed.replace(toks[lk].start, toks[last].end, f"let mut {kv}: usize = 0; while {kv} < {base_e}.len()")
             ed.insert(toks[lo_].end, lets)
             ed.insert(toks[lc_].start, f" {kv} += 1; ")
+            for (q_, nx_) in conts:
+                ed.replace(toks[q_].start, toks[nx_].end, f"{{ {kv} += 1; continue; }}")
             log.append(("R2", where, text[toks[lk].start:toks[lo_].end]))
     if "R3" in rules:
         # `for (i, b) in X.iter_mut().enumerate() {..*b..}` / `for b in X.iter_mut() {..*b..}` -> index loop over X with X[i]
